@@ -361,7 +361,9 @@ HasActiveRun(e) == \E r \in DOMAIN runs : runs[r].e = e /\ runs[r].status \in {"
 OpEnabled(op) ==
   CASE op.op \in {"next", "close", "rest"} -> RunActive(op.r)
     [] op.op \in {"query", "solve"} -> op.r \notin DOMAIN runs
-    [] op.op = "clear" -> ~HasActiveRun(op.e)      \* clear under an own suspended run: unspecified
+    [] op.op = "clear" -> TRUE     \* also while queries of the engine are suspended: they keep their snapshots and the
+                                   \* definitions of the calls already made; what they call or retract afterwards
+                                   \* meets the emptied engine
     [] op.op = "assert" -> op.r = 0 \/ op.r \in DOMAIN runs
     [] OTHER -> TRUE
 
